@@ -443,11 +443,10 @@ impl<'a> UserModel<'a> {
             .worksheet(sheet)?
             .cell(row, column)
             .cloned();
-        // If it is a spill cell we want to save the old value as None, because the value of a spill cell is determined by the anchor cell
-        let old_value = if matches!(old_value, Some(Cell::SpillCell { .. })) {
-            None
-        } else {
-            old_value
+        // If it is a spill cell we only save its style, because the value of a spill cell is determined by the anchor cell
+        let old_value = match old_value {
+            Some(Cell::SpillCell { s, .. }) => Some(Cell::EmptyCell { s }),
+            other => other,
         };
         let mut diff_list = vec![Diff::SetCellValue {
             sheet,
